@@ -22,11 +22,11 @@ CmdMenu == {Cm(1, A, B, <<0, 1>>, Z, Z, 0), Cm(3, A, Z, Z, Z, Z, 0), Cm(4, B, Z,
            \cup {Cm(6, A, Z, Z, Z, Z, dl) : dl \in {3, 224, 225}}
 OneEach == {c \in CmdMenu : c.dlen \in {0, 16, 20, 48, 224}}
 CmdSeqs == {<<>>} \cup {<<c>> : c \in IF Level >= 2 THEN CmdMenu ELSE OneEach \cup {c \in CmdMenu : c.t = 2}}
-           \cup (IF Level >= 2 THEN {<<c, d>> : c \in OneEach, d \in OneEach} ELSE {<<Cm(2, A, Z, Z, Z, Z, 209), Cm(14, Z, Z, Z, Z, Z, 0)>>})
-RootSets == IF Level >= 2 THEN {<<1, 0>>, <<2, 1>>, <<4, 0>>, <<4, 3>>} ELSE {<<1, 0>>, <<4, 3>>}
+           \cup (IF Level >= 2 THEN {<<c, d>> : c \in OneEach, d \in {x \in OneEach : x.t \in {2, 5, 10, 11, 14}}} ELSE {<<Cm(2, A, Z, Z, Z, Z, 209), Cm(14, Z, Z, Z, Z, Z, 0)>>})
+RootSets == IF Level >= 2 THEN {<<1, 0>>, <<2, 1>>, <<4, 3>>} ELSE {<<1, 0>>, <<4, 3>>}
 Isks == {<<FALSE, 0>>, <<TRUE, 0>>, <<TRUE, 4>>}
 Encs == {<<FALSE, 128, 0>>, <<TRUE, 128, 1>>, <<TRUE, 256, 3>>}
-Descs == IF Level >= 2 THEN {<<>>, [i \in 1..16 |-> 64 + i], [i \in 1..17 |-> 64 + i]} ELSE {[i \in 1..17 |-> 64 + i]}
+Descs == IF Level >= 2 THEN {[i \in 1..5 |-> 64 + i], [i \in 1..17 |-> 64 + i]} ELSE {[i \in 1..17 |-> 64 + i]}
 Inputs == {[curve |-> cv, nkeys |-> rs[1], used |-> rs[2], isk |-> ik[1], iskCurve |-> cv, udLen |-> ik[2], udSha |-> "u",
             constraints |-> <<0, 5>>, pckBits |-> en[2], rights |-> en[3], enc |-> en[1], nxp |-> FALSE, flags |-> B, fw |-> A,
             ts |-> <<1, 2, 3, 4>>, desc |-> ds, cmds |-> cs, waive |-> <<>>]
